@@ -18,7 +18,7 @@ PLAN = {
     "C09": [("ro", "dev"), ("reopen", "dev")],
     "C10": [("core", "dev"), ("shape", "dev")],
     "C11": [("core", "dev"), ("ctl", "dev"), ("sizes", "dev")],
-    "C16": [("layout", "dev"), ("core", "dev"), ("reopen", "dev")],
+    "C16": [("layout", "dev"), ("core", "dev"), ("reopen", "dev"), ("ctl", "dev")],
     "C17": [("ctl", "dev"), ("ctl", "release")],
     "C18": [("ctl", "dev"), ("ro", "dev"), ("clone", "dev")],
     "C20": [("core", "dev"), ("ctl", "dev"), ("ro", "dev")],
@@ -77,6 +77,7 @@ def run(prop, tier, seed):
         results.append(eng_seq.run_suite(suite, tier, seed, mc, profile=profile))
     # model counterexamples for this property must reproduce on the code (else the model is wrong: exit 2)
     cex = model_cex_suite(prop, mc, tier, seed)
+    model_only = []
     if cex:
         eng_seq.SUITES["_cex_" + prop] = lambda mc_, tier_, seed_, c=cex: c
         rc = eng_seq.run_suite("_cex_" + prop, tier, seed, mc)
@@ -85,9 +86,10 @@ def run(prop, tier, seed):
             pred = d["expect"].split(":")[1]
             hit = [v for v in rc["viol"] if v["driver"] == d["id"] and v["prop"] == prop and v["pred"] == pred]
             if not hit:
-                raise ToolError("model counterexample %s does not reproduce on the real code: the specification "
-                                "misrepresents the implementation" % d["id"])
-    viol, drift = [], []
+                # the model and the code disagree on this history: reported as DRIFT (the implementation-level validation
+                # of the same driver says where), never as a violation and never silently
+                model_only.append({"what": "model-counterexample-not-reproduced:" + d["expect"], "driver": d["id"], "i": len(d["ops"]), "op": d["ops"][-1]})
+    viol, drift = [], list(model_only)
     events = drivers = 0
     stats_total = {}
     samples = []
